@@ -38,6 +38,9 @@ def _playback_on_real_code(scratch, unit, harness, test_text):
         src = open(os.path.join(VERIF, modfile)).read()
         if re.search(r"\bfn\s+" + re.escape(harness.name) + r"\b", src) or harness.name in src:
             copy = os.path.join(scratch.root, "replay_" + os.path.basename(modfile))
+            # textual includes are resolved relative to the module file: inline them in the copy
+            moddir = os.path.dirname(os.path.join(VERIF, modfile))
+            src = re.sub(r'include!\("([^"]+)"\);', lambda mm: open(os.path.join(moddir, mm.group(1))).read(), src)
             open(copy, "w").write(src + "\n" + test_text + "\n")
             p = scratch.path(rel)
             s = open(p).read()
